@@ -81,7 +81,7 @@ func WellFormed(f types.Value) bool {
 func RefMatch(d types.Value, exists bool, f types.Value) bool {
 	m, ok := f.(types.Map)
 	if !ok {
-		return types.Equal(d, f)
+		return REqual(d, f)
 	}
 	res := true
 	for k, v := range m.Range() {
@@ -89,17 +89,17 @@ func RefMatch(d types.Value, exists bool, f types.Value) bool {
 		var ok bool
 		switch key {
 		case "$eq":
-			ok = types.Equal(d, v)
+			ok = REqual(d, v)
 		case "$ne":
-			ok = !types.Equal(d, v)
+			ok = !REqual(d, v)
 		case "$gt":
-			ok = types.Compare(d, v) > 0
+			ok = RCompare(d, v) > 0
 		case "$gte":
-			ok = types.Compare(d, v) >= 0
+			ok = RCompare(d, v) >= 0
 		case "$lt":
-			ok = types.Compare(d, v) < 0
+			ok = RCompare(d, v) < 0
 		case "$lte":
-			ok = types.Compare(d, v) <= 0
+			ok = RCompare(d, v) <= 0
 		case "$exists":
 			ok = exists == Truthy(v)
 		case "$and":
@@ -119,11 +119,7 @@ func RefMatch(d types.Value, exists bool, f types.Value) bool {
 			var child types.Value
 			has := false
 			if dm, isMap := d.(types.Map); isMap {
-				for dk, dv := range dm.Range() {
-					if types.Equal(dk, k) {
-						child, has = dv, true
-					}
-				}
+				child, has = Lookup(dm, k)
 			}
 			ok = RefMatch(child, has, v)
 		}
@@ -153,7 +149,7 @@ type pairs [][2]types.Value
 
 func (p pairs) find(k types.Value) int {
 	for i := range p {
-		if types.Equal(p[i][0], k) {
+		if REqual(p[i][0], k) {
 			return i
 		}
 	}
@@ -271,11 +267,11 @@ type RefStore struct {
 	Indexes []RefIndex
 }
 
-func idOf(d types.Map) types.Value { return d.Get(S("id")) }
+func idOf(d types.Map) types.Value { return Field(d, S("id")) }
 
 func (r *RefStore) pos(id types.Value) int {
 	for i, d := range r.Docs {
-		if types.Compare(idOf(d), id) == 0 {
+		if RCompare(idOf(d), id) == 0 {
 			return i
 		}
 	}
@@ -286,7 +282,7 @@ func (ix RefIndex) admits(d types.Map) bool { return ix.Filter == nil || RefMatc
 
 func (ix RefIndex) sameTuple(x, y types.Map) bool {
 	for _, k := range ix.Keys {
-		if types.Compare(x.Get(S(k)), y.Get(S(k))) != 0 {
+		if RCompare(Field(x, S(k)), Field(y, S(k))) != 0 {
 			return false
 		}
 	}
@@ -317,7 +313,7 @@ func (r *RefStore) insertOne(d types.Map) string {
 		return "keyDuplicate"
 	}
 	r.Docs = append(r.Docs, d)
-	sort.SliceStable(r.Docs, func(i, j int) bool { return types.Compare(idOf(r.Docs[i]), idOf(r.Docs[j])) < 0 })
+	sort.SliceStable(r.Docs, func(i, j int) bool { return RCompare(idOf(r.Docs[i]), idOf(r.Docs[j])) < 0 })
 	return ""
 }
 
@@ -375,7 +371,7 @@ func (r *RefStore) Apply(o Op) Expect {
 		if o.Sort != nil {
 			sort.SliceStable(ds, func(i, j int) bool {
 				for f, ord := range o.Sort.Range() {
-					if c := types.Compare(ds[i].Get(f), ds[j].Get(f)); c != 0 {
+					if c := RCompare(Field(ds[i], f), Field(ds[j], f)); c != 0 {
 						return c*DirOf(ord) < 0 // a direction that decodes to 0: every pair ties, the scan order stays
 					}
 				}
@@ -422,7 +418,7 @@ func (r *RefStore) Apply(o Op) Expect {
 			if id == nil {
 				return Expect{Kind: "err", Err: "keyMissing"}
 			}
-			if types.Compare(id, idOf(d)) != 0 {
+			if RCompare(id, idOf(d)) != 0 {
 				return Expect{Unchecked: true}
 			}
 			i := r.pos(id)
